@@ -254,6 +254,16 @@ pub fn eval_policy(p: &Semantic<DefiniteDescriptorKey>, w: &PolicyWorld) -> bool
     }
 }
 
+/// `eval_policy` for a policy the library has already restricted to a sequence and lock time: the
+/// locks that are left are met.
+pub fn eval_policy_locks_met(p: &Semantic<DefiniteDescriptorKey>, w: &PolicyWorld) -> bool {
+    match p {
+        Semantic::After(_) | Semantic::Older(_) => true,
+        Semantic::Thresh(t) => t.iter().filter(|s| eval_policy_locks_met(s, w)).count() >= t.k(),
+        other => eval_policy(other, w),
+    }
+}
+
 /// For every key of the descriptor: the signature slots it has, and whether the world holds all or
 /// none of them. Returns (uniform, fully available keys).
 fn key_uniformity(env: &Env, desc: &Descriptor<DefiniteDescriptorKey>, key_ids: &[usize], sat: &WorldSat) -> (bool, BTreeSet<usize>) {
@@ -422,6 +432,29 @@ pub fn check_reference(w: &mut World, actor: &str, psbt: &Psbt, i: usize, produc
                         format!("lifted policy evaluates to {} but a witness from these assets {} (R3+R1): desc={} policy={}", pv, if exists { "exists" } else { "does not exist" }, text, pol),
                         actor,
                     );
+                }
+                // P7-filter: the same question put through the library's own way of evaluating a
+                // policy at a given sequence and lock time (`at_age`, `at_lock_time`): what is left
+                // after the restriction holds no unmet lock, so its locks count as met
+                if w.violations.is_empty() {
+                    let age = if (sat.version as u32) >= 2 { bitcoin::Sequence(sat.sequence).to_relative_lock_time().unwrap_or(bitcoin::relative::LockTime::ZERO) } else { bitcoin::relative::LockTime::ZERO };
+                    let lt = if sat.sequence != 0xffff_ffff { bitcoin::absolute::LockTime::from_consensus(sat.lock_time) } else { bitcoin::absolute::LockTime::ZERO };
+                    let p2 = pol.clone();
+                    if let Some(restricted) = guard(w, "at_age/at_lock_time", actor, |_| p2.at_age(age).at_lock_time(lt)) {
+                        let pw = PolicyWorld { env: &env, keys: key_uniformity(&env, &desc, &env.inputs[i].key_ids, &sat).1, preimages: &sat.preimages, lock_time: sat.lock_time, sequence: sat.sequence, version: sat.version };
+                        let pf = eval_policy_locks_met(&restricted, &pw);
+                        w.stats.probe(if pf { "p7_filtered_true" } else { "p7_filtered_false" });
+                        if pf != exists {
+                            raise_class(
+                                w,
+                                "C07",
+                                "P7-filter",
+                                format!("P7-filter:{:?}:policy={}:exists={}", kind, pf, exists),
+                                format!("the lifted policy restricted with at_age({}) and at_lock_time({}) evaluates to {} but a witness from these assets {} (R3+R1): desc={} policy={} restricted={}", age, lt, pf, if exists { "exists" } else { "does not exist" }, text, pol, restricted),
+                                actor,
+                            );
+                        }
+                    }
                 }
             } else {
                 w.stats.probe("p7_lift_refused");
